@@ -42,7 +42,7 @@ def gen_point(G, rng):
         ws = [rng.random() + 0.05 for _ in P]
         s = sum(ws)
         x = sum(wk * p[0] for wk, p in zip(ws, P)) / s
-        j = rng.choice(list(G.cols[i].neighbour) + [G.cols[i]])
+        j = rng.choice(G.nbrs(i) + [G.cols[i]])
         v = rng.choice(G.polyf[G.index[id(j)]])
         if rng.random() < 0.3: x = b[0] - rng.uniform(0.01, 0.3) * w     # outside, to the left
         return [x, v[1]], 'level-with-vertex'
@@ -77,7 +77,7 @@ def make_aids(G, rng, T):
     n = G.n
     cols = G.cols
     right = T if T is not None else rng.randrange(n)
-    nb = list(cols[right].neighbour)
+    nb = G.nbrs(right)       # in columnlist order (a set of objects iterates in address order: not reproducible)
     nbr = G.index[id(rng.choice(nb))] if nb else rng.randrange(n)
     far = rng.randrange(n)
 
@@ -760,7 +760,7 @@ def _prim_task(spec, repo, seed, n):
         for a, b in ((c.bounding_box, t.bounds), (c.bounding_box, c2.bounding_box)):
             lines.append('ri\t%s\t%s' % (rect_wire(a), rect_wire(b)))
             impl.append('1' if rectangles_intersect(a, b) else '0'); meta.append(('rectangles_intersect', None, None))
-        nb = list(c.neighbour)
+        nb = G.nbrs(G.index[id(c)])
         if nb:
             b = rng.choice(nb).bounding_box
             lines.append('ri\t%s\t%s' % (rect_wire(c.bounding_box), rect_wire(b)))
